@@ -27,7 +27,7 @@ func (tr *Trace) stopsInFlight() int {
 // claimant that carry the claimant's token.
 func OracleC02(tr *Trace) Verdict {
 	p := tr.Plan
-	v := Verdict{Premise: p.FaultFree() && p.MaxRTT() < p.H/2 && !p.AnyTakeover()}
+	v := Verdict{Premise: p.FaultFree() && p.MaxRTT() < p.H/2 && !p.PreemptionPossible()}
 	if !v.Premise {
 		return v
 	}
